@@ -1748,6 +1748,355 @@ def tool_option_probes(ctx, harness, stats):
         raise vlib.CheckFailure("option probes did not all run: %s" % seen)
 
 
+# ------------------------------------------------------------------ the sqfs2tar model (premise of the fix-point theorems) vs the real sqfs2tar
+S2T_POOL = [b"d", b"dx", b"d.y", b"d0", b"a", b"b", b"e", b"f", b"zz", b"d ", b"D", b"\xc3\xa4", b"n" * 99, b"m" * 100, b"L" * 120, b"k" * 255]
+
+
+def gen_s2t_tree(rng, sock=False):
+    """a small tree described by the generator: {path: node}; node = dict(kind, mode, uid, gid, mtime, target, content, xattrs, maj, min,
+    link_to).  Names are chosen so that siblings extend each other's names (`d`, `dx`, `d.y`, `d0`: prefix tests of --subdir), paths
+    cross the 100-byte header field, and hard links stand before and after their targets in directory order."""
+    nodes, dirs = {}, [b""]
+    ids = [0, 1, 1000, 65534, (1 << 21) - 1, 1 << 21, (1 << 31), (1 << 32) - 1]
+    mts = [0, 1, 1542905892, (1 << 31) - 1, 1 << 31, (1 << 32) - 1]
+
+    def xat():
+        if sock or rng.random() < 0.6:
+            return []
+        out = []
+        for _ in range(rng.randint(1, 3)):
+            k = rng.choice([b"user.", b"trusted.", b"security."]) + rng.choice([b"a", b"b", b"x=y", b"50%", b"key", b"z" * 40]) + bytes(rng.choice(b"abc") for _ in range(rng.randint(0, 2)))
+            if k not in [a for a, _ in out]:
+                out.append((k, bytes(rng.choice([0, 10, 61, 0xff, rng.randrange(256)]) for _ in range(rng.choice([0, 1, 5, 80])))))
+        return out
+
+    for _ in range(rng.randint(2, 16)):
+        parent = rng.choice(dirs)
+        name = rng.choice(S2T_POOL[:9] if sock else S2T_POOL)          # (pack files: no trailing blank, ASCII)
+        path = parent + b"/" + name if parent else name
+        if path in nodes or len(path) > 600:
+            continue
+        kind = rng.choice(["dir", "dir", "dir", "file", "file", "file", "slink", "chr", "blk", "fifo"] + (["sock", "sock"] if sock else []))
+        perm = rng.choice([0o644, 0o755, 0o700, 0o7777, 0, 0o4711])
+        n = dict(kind=kind, perm=perm, uid=rng.choice(ids), gid=rng.choice(ids), mtime=0 if sock else rng.choice(mts),
+                 target=None, content=b"", xattrs=xat(), maj=0, min=0, link_to=None)
+        if kind == "dir":
+            dirs.append(path)
+        elif kind == "file":
+            n["content"] = bytes(rng.randrange(256) for _ in range(rng.choice([0, 1, 5, 511, 512, 513, 1500])))
+        elif kind == "slink":
+            n["perm"] = 0o777
+            n["target"] = rng.choice([b"x", b"../up", b"/abs/path", b"t" * 99, b"t" * 100, b"u" * 101, b"a/b"])
+        elif kind in ("chr", "blk"):
+            n["maj"], n["min"] = rng.choice([0, 1, 8, 255, 4095]), rng.choice([0, 1, 255, 256, (1 << 20) - 1])
+        nodes[path] = n
+    prim = [p for p, n in nodes.items() if n["kind"] not in ("dir",)]
+    for _ in range(rng.choice([0, 0, 1, 2, 3]) if prim else 0):
+        tgt = rng.choice(prim)
+        parent = rng.choice(dirs)
+        name = rng.choice([b"0hl", b"hl", b"zzhl", b"d", b"h" * 110])             # sorts before / after most targets
+        path = parent + b"/" + name if parent else name
+        if path in nodes:
+            continue
+        nodes[path] = dict(kind="hard", link_to=tgt)
+    return nodes
+
+
+def s2t_listing(nodes, no_xattr=False):
+    """the recursive listing of the image: pre-order, children by name (bytes), every name of an inode with that inode's attributes and
+    the same inode number -> list of dicts for the `s2t` op"""
+    kids = {}
+    for p in nodes:
+        kids.setdefault(p.rsplit(b"/", 1)[0] if b"/" in p else b"", []).append(p)
+    ino, out = {}, []
+    for i, p in enumerate(sorted(nodes)):
+        if nodes[p]["kind"] != "hard":
+            ino[p] = i + 1
+
+    def rec(d):
+        for c in sorted(kids.get(d, []), key=lambda x: x.rsplit(b"/", 1)[-1]):
+            n = nodes[c]
+            src = nodes[n["link_to"]] if n["kind"] == "hard" else n
+            fm = {"dir": S_IFDIR, "file": S_IFREG, "slink": S_IFLNK, "chr": S_IFCHR, "blk": S_IFBLK, "fifo": S_IFIFO, "sock": S_IFSOCK}[src["kind"]]
+            out.append(dict(name=c, mode=fm | src["perm"], uid=src["uid"], gid=src["gid"], mtime=src["mtime"],
+                            inode=ino[n["link_to"]] if n["kind"] == "hard" else ino[c], target=src["target"], content=src["content"],
+                            xattrs=[] if no_xattr else src["xattrs"], maj=src["maj"], min=src["min"]))
+            if n["kind"] == "dir":
+                rec(c)
+    rec(b"")
+    return out
+
+
+def s2t_archive(rng, nodes, root):
+    """a tar archive tar2sqfs turns into the image of `nodes`: directories first (parents before children), then the rest in random
+    order, hard link records anywhere among them; xattrs as SCHILY records in *reverse* stored order (the reader prepends)"""
+    def member(path, n):
+        pre = b""
+        if n["kind"] != "hard" and n["xattrs"]:
+            pre = pax_member([pax_record(b"SCHILY.xattr." + gnu_escape_key(k), v) for k, v in reversed(n["xattrs"])])
+        kw = dict(dialect="gnu")
+        if n["kind"] == "hard":
+            t = n["link_to"]
+            if len(t) > 99:
+                pre += gnu_long(b"K", t)
+            kw.update(typeflag=b"1", linkname=t[:100], mode=0o644)
+        else:
+            kw.update(mode=n["perm"], uid=n["uid"], gid=n["gid"], mtime=n["mtime"])
+            if n["kind"] == "dir":
+                kw.update(typeflag=b"5")
+            elif n["kind"] == "file":
+                kw.update(typeflag=b"0", size=len(n["content"]))
+            elif n["kind"] == "slink":
+                if len(n["target"]) > 99:
+                    pre += gnu_long(b"K", n["target"])
+                kw.update(typeflag=b"2", linkname=n["target"][:100])
+            elif n["kind"] in ("chr", "blk"):
+                kw.update(typeflag=b"3" if n["kind"] == "chr" else b"4", maj=n["maj"], minr=n["min"])
+            else:
+                kw.update(typeflag=b"6")
+        name = path + (b"/" if n["kind"] == "dir" else b"")
+        if len(name) > 99:
+            pre += gnu_long(b"L", name)
+        body = pad512(n["content"]) if n["kind"] == "file" else b""
+        return pre + mk_header(name=name[:100], **kw) + body
+    out = b""
+    if root is not None:
+        out += member(b".", dict(kind="dir", perm=root["perm"], uid=root["uid"], gid=root["gid"], mtime=root["mtime"], xattrs=root["xattrs"]))
+    ds = sorted((p for p in nodes if nodes[p]["kind"] == "dir"), key=lambda p: (p.count(b"/"), p))
+    rest = [p for p in nodes if nodes[p]["kind"] != "dir"]
+    rng.shuffle(rest)
+    for p in ds + rest:
+        out += member(p, nodes[p])
+    # stored order of an inode's xattrs: the xattr writer sorts the pairs of one inode by the index of the key in its string table,
+    # i.e. by the first appearance of the key string while tar2sqfs works through the archive (xattr_writer_record.c:123)
+    rank = {}
+    for n in ([root] if root is not None else []) + [nodes[p] for p in ds + rest]:
+        for k, _ in n.get("xattrs") or []:
+            rank.setdefault(k, len(rank))
+    for n in ([root] if root is not None else []) + list(nodes.values()):
+        if n.get("xattrs"):
+            n["xattrs"] = sorted(n["xattrs"], key=lambda kv: rank[kv[0]])
+    return out + b"\0" * 1024
+
+
+def s2t_pack_file(nodes, d):
+    """gensquashfs pack file for a tree with sockets (tar cannot carry them)"""
+    lines = []
+    for p in sorted(nodes, key=lambda p: (nodes[p]["kind"] == "hard", p.count(b"/"), p)):
+        n = nodes[p]
+        q = p.decode("latin1").replace("\\", "\\\\").replace('"', '\\"')
+        q = '"%s"' % q
+        if n["kind"] == "hard":
+            lines.append("link %s 0 0 0 %s" % (q, n["link_to"].decode("latin1")))
+            continue
+        base = "%s 0%o %d %d" % (q, n["perm"], n["uid"], n["gid"])
+        if n["kind"] == "dir":
+            lines.append("dir " + base)
+        elif n["kind"] == "file":
+            f = d / ("c%d.bin" % len(lines))
+            f.write_bytes(n["content"])
+            lines.append("file %s %s" % (base, f))
+        elif n["kind"] == "slink":
+            lines.append("slink %s %s" % (base, n["target"].decode("latin1")))
+        elif n["kind"] in ("chr", "blk"):
+            lines.append("nod %s %s %d %d" % (base, "c" if n["kind"] == "chr" else "b", n["maj"], n["min"]))
+        elif n["kind"] == "fifo":
+            lines.append("pipe " + base)
+        else:
+            lines.append("sock " + base)
+    return "\n".join(lines) + "\n"
+
+
+def s2t_line(op, so, root, listing):
+    def xs(l):
+        return ",".join("%s:%s" % (tok(k), tok(v)) for k, v in l) if l else "-"
+    ents = ["%s;%o;%d;%d;%d;%d;%s;%s;%s;%d;%d" % (tok(e["name"]), e["mode"], e["uid"], e["gid"], e["mtime"], e["inode"],
+                                                 "null" if e["target"] is None else tok(e["target"]), tok(e["content"]), xs(e["xattrs"]), e["maj"], e["min"])
+            for e in listing]
+    return "%s %s %d %s %d %d %s %s" % (op, ",".join(tok(x) for x in so["subdirs"]) if so["subdirs"] else "-", so["keep"] or len(so["subdirs"]) > 1,
+                                        "null" if so["rb"] is None else tok(so["rb"]), so["L"], so["s"],
+                                        "%o;%d;%d;%d;%s" % (S_IFDIR | root["perm"], root["uid"], root["gid"], root["mtime"], xs([] if so["X"] else root["xattrs"])),
+                                        " ".join(ents))
+
+
+def s2t_spec_names(so, listing):
+    """independent statement of which entries sqfs2tar emits and under which names (not of the bytes): (names, hard link targets)"""
+    sub, keep = so["subdirs"], so["keep"] or len(so["subdirs"]) > 1
+    out = []
+    for e in listing:
+        nm = e["name"]
+        isdir = e["mode"] & S_IFMT == S_IFDIR
+        if sub:
+            below = [p for p in sub if nm == p or nm.startswith(p + b"/")]
+            above = [p for p in sub if p.startswith(nm + b"/")]
+            if not below and not above:
+                continue
+            if not keep:
+                if not nm.startswith(sub[0] + b"/"):
+                    continue
+                nm = nm[len(sub[0]) + 1:]
+        if so["rb"] is not None:
+            nm = so["rb"] + b"/" + nm
+        out.append((nm, isdir, e["inode"]))
+    if so["rb"] is not None:
+        out.insert(0, (so["rb"], True, 0))
+    names, first = [], {}
+    for nm, isdir, ino in out:
+        if not isdir and not so["L"] and ino in first:
+            names.append(tok(nm) + ">" + tok(first[ino]))
+        else:
+            names.append(tok(nm))
+            if not isdir:
+                first.setdefault(ino, nm)
+    return names
+
+
+def unit_sqfs2tar(ctx, harness, stats):
+    """`sqfs2tarFull` (= `sqfs2tarLoop`/`entryBytes`/`wentryOf`, the functions the fixpoint_* theorems are about, behind the models of
+    bin/sqfs2tar/src/iterator.c and lib/sqfs/src/io/dir_hl.c) against the real sqfs2tar, byte for byte, on generated images x options"""
+    rng = ctx.rng
+    tools = {t: ctx.build_tool(t) for t in ("tar2sqfs", "sqfs2tar", "gensquashfs")}
+    d = ctx.scratch / "s2t"
+    d.mkdir(exist_ok=True)
+    env = ctx.san_env({"SOURCE_DATE_EPOCH": "0"})
+    nimg = 45 if ctx.quick() else 900
+    cases, hist = [], {"images": 0, "socket_images": 0, "runs": 0, "opts": {}, "hard_link_records": 0, "model_fail": 0, "entries": 0, "emitted": 0,
+                       "subdir_with_name_extending_sibling": 0}
+    for ii in range(nimg):
+        sock = ii % 6 == 5
+        nodes = gen_s2t_tree(rng, sock)
+        if not nodes:
+            continue
+        root = None
+        if not sock and rng.random() < 0.5:
+            root = dict(perm=rng.choice([0o755, 0o700, 0o1777]), uid=rng.choice([0, 1000]), gid=rng.choice([0, 7]), mtime=rng.choice([0, 1542905892]),
+                        xattrs=[(b"user.root", b"r")] if rng.random() < 0.5 else [])
+        img = d / ("i%d.sqfs" % ii)
+        if sock:
+            wd = d / ("p%d" % ii)
+            wd.mkdir(exist_ok=True)
+            pf = wd / "pack.txt"
+            pf.write_bytes(s2t_pack_file(nodes, wd).encode("latin1"))
+            r = vlib.sh([str(tools["gensquashfs"]), "-q", "-f", "-F", str(pf), str(img)], env=env, timeout=1800, text=False)
+            how = {"pack_file": pf.read_text(errors="replace")}
+        else:
+            arc = s2t_archive(rng, nodes, root)
+            r = vlib.sh([str(tools["tar2sqfs"]), "-q", "-f", "-j", "1", str(img)], input=arc, env=env, timeout=1800, text=False)
+            how = {"archive_hex": tok(arc)}
+        if r.returncode != 0:
+            stats["disagreements_checked"] += 1
+            report(ctx, "s2t-build", "s2t-build:" + vlib.sha(repr(sorted(nodes)))[:10], "the image for the sqfs2tar tie cannot be built (exit %d): %s" % (
+                r.returncode, r.stderr.decode("latin1")[-300:]), {"s2t": dict(how, nodes=repr(nodes))}, found_input=False)
+            continue
+        hist["images"] += 1; hist["socket_images"] += sock
+        rootd = root or dict(perm=0o755, uid=0, gid=0, mtime=0, xattrs=[])
+        dirs = [p for p, n in nodes.items() if n["kind"] == "dir"]
+        optsets = [dict(subdirs=[], keep=False, rb=None, L=False, X=False, s=False)]
+        for _ in range(2 if ctx.quick() else 4):
+            so = dict(subdirs=[], keep=False, rb=None, L=rng.random() < 0.25, X=rng.random() < 0.2, s=rng.random() < (0.5 if sock else 0.1))
+            if dirs and rng.random() < 0.7:
+                so["subdirs"] = rng.sample(dirs, min(len(dirs), rng.choice([1, 1, 1, 2, 3])))
+                so["keep"] = rng.random() < 0.4
+            if rng.random() < 0.4:
+                so["rb"] = rng.choice([b"r", b"a/b", b".", b"d", b"x" * 101])
+            optsets.append(so)
+        for so in optsets:
+            listing = s2t_listing(nodes, so["X"])
+            argv = []
+            if so["rb"] is not None:
+                argv += ["-r", so["rb"].decode()]
+            for sd in so["subdirs"]:
+                argv += ["-d", sd.decode("latin1")]
+            argv += (["--keep-as-dir"] if so["keep"] else []) + (["--no-xattr"] if so["X"] else []) + (["--no-hard-links"] if so["L"] else []) + \
+                (["--no-skip"] if so["s"] else [])
+            argvb = [a.encode("latin1") for a in argv]
+            r = vlib.sh([str(tools["sqfs2tar"]).encode()] + argvb + [str(img).encode()], env=env, timeout=1800, text=False)
+            if any(any(q != p and q.rsplit(b"/", 1)[0:-1] == p.rsplit(b"/", 1)[0:-1] and q.startswith(p) for q in nodes) for p in so["subdirs"]):
+                hist["subdir_with_name_extending_sibling"] += 1
+            cases.append((ii, so, argv, rootd, listing, r, how))
+        try:
+            img.unlink()
+        except OSError:
+            pass
+    if not cases:
+        raise vlib.CheckFailure("sqfs2tar tie: no image could be built")
+    lines = [s2t_line("s2t", so, rootd, listing) for _, so, _, rootd, listing, _, _ in cases]
+    model = run_model(ctx, lines)
+    ents = run_model(ctx, [s2t_line("s2tents", so, rootd, listing) for _, so, _, rootd, listing, _, _ in cases])
+    for (ii, so, argv, rootd, listing, r, how), l, m, en in zip(cases, lines, model, ents):
+        hist["runs"] += 1
+        for k in ("keep", "L", "X", "s"):
+            hist["opts"][k] = hist["opts"].get(k, 0) + bool(so[k])
+        hist["opts"]["subdir%d" % min(len(so["subdirs"]), 2)] = hist["opts"].get("subdir%d" % min(len(so["subdirs"]), 2), 0) + 1
+        hist["opts"]["rb"] = hist["opts"].get("rb", 0) + (so["rb"] is not None)
+        hist["entries"] += len(listing)
+        stats["nontrivial"].add(("s2t", vlib.sha(l)[:16]))
+        replay = {"unit_model": [l], "s2t": dict(how, argv=argv)}
+        if r.returncode >= 90 or r.returncode < 0:
+            ctx.violation("crash:sqfs2tar:" + vlib.sha(l)[:10], "sqfs2tar %s aborts (exit %d): %s" % (" ".join(argv), r.returncode, r.stderr.decode("latin1")[-400:]), replay)
+            continue
+        got = "fail" if r.returncode != 0 else "ok " + tok(r.stdout)
+        # independent statement of the emitted names / hard link targets (Python) against the model's entry list
+        want_names = s2t_spec_names(so, listing)
+        got_names = [] if en == "" else en.split(" ")
+        hist["emitted"] += len(got_names)
+        hist["hard_link_records"] += sum(">" in x for x in got_names)
+        hist["model_fail"] += m == "fail"
+        if got_names != want_names:
+            stats["disagreements_checked"] += 1
+            report(ctx, "s2t-model", "s2t-model:" + vlib.sha(l)[:10], "the model's entry list for sqfs2tar %s differs from its specification: model %s, specification %s" % (
+                " ".join(argv), got_names[:6], want_names[:6]), replay, found_input=False)
+        if got == m:
+            continue
+        stats["disagreements_checked"] += 1
+        # which property does the real output violate?  walk its members with the independent reader used for the xattr probe
+        what = "sqfs2tar %s: the real tool and the model differ (%s vs %s)" % (" ".join(argv), got[:60], m[:60])
+        found = False
+        if got != "fail" and m != "fail":
+            a, b = untok(got[3:]), untok(m[3:])
+            k = next((i for i in range(min(len(a), len(b))) if a[i] != b[i]), min(len(a), len(b)))
+            names_real = walk_member_names(a)
+            found = names_real is None or names_real != [untok(x.split(">")[0]) for x in want_names if True]
+            what += ": %d vs %d bytes, first difference at offset %d (record %d, byte %d); member names of the real archive %s the specification" % (
+                len(a), len(b), k, k // 512, k % 512, "differ from" if found else "agree with")
+        else:
+            found = True
+            what += ": exit status %d, the model says %s" % (r.returncode, "failure (--no-skip and a socket)" if m == "fail" else "success")
+        report(ctx, "s2t", "s2t:" + vlib.sha(l)[:10], what, replay, found_input=found)
+    stats["evaluations"] += 3 * len(cases)
+    stats["sqfs2tar_tie"] = hist
+    if hist["hard_link_records"] == 0 or hist["opts"].get("subdir1", 0) == 0 or hist["emitted"] == 0:
+        raise vlib.CheckFailure("sqfs2tar tie generated no hard link record / no --subdir run: %s" % hist)
+
+
+def walk_member_names(buf):
+    """member names of a tar archive written by sqfs2tar (GNU 'L' records honoured), own walker; None when not well-formed"""
+    names, pos, longname = [], 0, None
+    while pos + 512 <= len(buf):
+        h = buf[pos:pos + 512]
+        pos += 512
+        if h == b"\0" * 512:
+            continue
+        try:
+            f = h[124:136]
+            size = int.from_bytes(f[1:], "big") if f[0] & 0x80 else int(f.rstrip(b" \0") or b"0", 8)
+        except ValueError:
+            return None
+        tf = h[156:157]
+        payload = buf[pos:pos + size]
+        if tf in (b"L", b"K", b"x", b"0", b"\0"):
+            pos += (size + 511) // 512 * 512
+        if tf == b"L":
+            longname = payload.split(b"\0")[0]
+        elif tf in (b"K", b"x"):
+            pass
+        else:
+            nm = longname if longname is not None else h[:100].split(b"\0")[0]
+            names.append(nm[:-1] if nm.endswith(b"/") and len(nm) > 1 else nm)
+            longname = None
+    return names
+
+
 # ------------------------------------------------------------------ entry points
 def run(ctx):
     ok, problems = vlib.proof_gate(ctx, MODULE, REQUIRED)
@@ -1761,7 +2110,7 @@ def run(ctx):
     stats = {"evaluations": 0, "disagreements_checked": 0, "nontrivial": set(), "samples": []}
     t0 = time.time()
     harness = build_harness(ctx)
-    for fn in (unit_numbers, unit_checksum, unit_headers, unit_reader, unit_canon_inplace, tool_conv, tool_xattr_keys, tool_option_probes):
+    for fn in (unit_numbers, unit_checksum, unit_headers, unit_reader, unit_canon_inplace, unit_sqfs2tar, tool_conv, tool_xattr_keys, tool_option_probes):
         t1 = time.time()
         fn(ctx, harness, stats)
         ctx.log("%s: %.1fs" % (fn.__name__, time.time() - t1))
